@@ -323,6 +323,30 @@ def decode_schema(F, R):
         pk = propschema.packet_of(b.path)
         want = spec_ids_for(spec, pk)
         tables[pk] = (b, sb, table)
+        # properties may come in any order: an arm never looks at the slot of another property ("data requires method" inside
+        # the loop refuses the same packet when an independent encoder writes the two the other way round)
+        t_sw = b.blocks[sb]['term']
+        targets_ = {tb for _, tb in t_sw['targets']} | {t_sw['otherwise']}
+        above_ = set(b.dom.get(sb, ())) - {sb}
+        regs_, slots_ = {}, {}
+        for v_, tb_ in t_sw['targets']:
+            regs_[v_] = b.reachable(tb_, avoid=(targets_ - {tb_}) | above_)
+            for bi_, ct_ in b.calls():
+                if bi_ in regs_[v_] and ((callee_name(ct_) or '').endswith('Property>::read_value') or re.search(r'Vec::<T, A>::push$', callee_name(ct_) or '')):
+                    l_ = root_local(b, ct_['args'][0])
+                    if l_ is not None:
+                        slots_.setdefault(v_, set()).add(l_)
+        allslots_ = {l_: v_ for v_, ls_ in slots_.items() for l_ in ls_}
+        foreign = []
+        for v_, reg_ in regs_.items():
+            for bi_, ct_ in b.calls():
+                if bi_ in reg_ and re.search(r'Option::<T>::is_(some|none)$|Vec::<T, A>::(is_empty|len)$', callee_name(ct_) or '') and ct_['args']:
+                    l_ = root_local(b, ct_['args'][0])
+                    if l_ in allslots_ and allslots_[l_] != v_ and l_ not in slots_.get(v_, ()):
+                        foreign.append((v_, allslots_[l_], bi_))
+        R.ob('C01.decode-schema', '%s|arms-independent-of-property-order' % pk, not foreign,
+             'the arm of identifier %s tests whether property %s was already read: the packet is decoded or refused depending on the order the peer wrote its properties in'
+             % (hex(foreign[0][0]) if foreign else '', hex(foreign[0][1]) if foreign else ''), b.loc(foreign[0][2]) if foreign else b.loc(sb))
         R.ob('C01.decode-schema', '%s|accepted-identifiers==specification' % pk, set(table) == set(want),
              'legal but rejected: %s; accepted but not allowed in this packet: %s' % (sorted(hex(x) for x in set(want) - set(table)), sorted(hex(x) for x in set(table) - set(want))), b.loc(sb))
         for pid, info in sorted(table.items()):
@@ -678,6 +702,24 @@ def imported(F, R):
     R.ob('C01.layout-size', 'decoders-consume-exactly-the-frame (C02.frame-exhausted, %d arms)' % n, not badarms and n >= 27, 'accepted with bytes left over: %s' % badarms[:4])
 
 
+def no_silent_encode(F, R):
+    """A packet body is never "encoded" by writing nothing: every Ok exit of the MQTT 5 packet encoders (`EncodeLtd::encode` of
+    the packet structs) lies behind at least one write into the buffer. (A short form that drops the whole body when a
+    computed size is 0 loses whatever that size did not account for.)"""
+    n = 0
+    for fn in sorted(F.bodies):
+        if not re.search(r'EncodeLtd>::encode$', fn) or not any(re.search(pat, fn) for pat, name in ENC_PACKET if name != 'PUBLISH'):
+            continue
+        b = F.bodies[fn]
+        n += 1
+        writes = {bi for bi, t in b.calls() if any(any(l[0] == 'arg' and l[1] == 2 for l in Origin(b).of_operand(a)) for a in t.get('args') or [] if op_place(a) is not None)}
+        oks = [bi for bi, j, s in agg_sites(b, r'^std::result::Result$', 'Ok') if s['lhs']['l'] in b.ret_locals]
+        bad = [o for o in oks if not b.must_pass(writes, o)]
+        R.ob('C01.encode-schema', '%s|no-Ok-without-writing' % c09name(fn), not bad,
+             'the encoder can report success without having written anything of the packet body: fields that are set are silently left out', b.loc(bad[0]) if bad else b.loc(0))
+    R.floor('C01.encode-schema', 'packet encoders checked for silent success', n, 9)
+
+
 def optional_tails(F, R):
     """MQTT 5 lets DISCONNECT and the four publish acknowledgements end early: after the packet id (Remaining Length 2), or
     after the reason code (no Property Length). The decoders therefore read the reason code, and later the property block,
@@ -722,6 +764,7 @@ def run(F, R):
     tables = decode_schema(F, R)
     opt_props_ids(F, R)
     optional_tails(F, R)
+    no_silent_encode(F, R)
     encode_schema(F, R, sf, tables)
     wire_order(F, R, sf)
     connect_flags(F, R)
